@@ -114,6 +114,36 @@ func solveAll(obs []*Obligation, dir string, timeoutS int, keep bool) {
 			} else {
 				qf, full := q.Instantiated(0)
 				done := false
+				// cheapest attempt first: only the quantifier-free hypotheses connected to the goal through scalar symbols
+				if len(o.Hyps) > 150 || hasHardArith(o.Goal) {
+					if sl := q.Sliced(sliceRounds()); sl != nil {
+						f := writeQuery(dir, o.Name+".slice", sl.Script(nil))
+						r := RunPortfolio(f, 10, "")
+						if r.Status == "unsat" {
+							r.Solver += "+slice"
+							o.Res = r
+							done = true
+						}
+						if !keep {
+							os.Remove(f)
+						}
+						if !done {
+							// arithmetic goals: array reads abstracted to scalars, with the integer-translating back end
+							if sc := sl.Scalarized(); sc != nil {
+								f2 := writeQuery(dir, o.Name+".scalar", sc.Script(nil))
+								r2 := RunPortfolio(f2, 10, "+int")
+								if r2.Status == "unsat" {
+									r2.Solver += "+scalar"
+									o.Res = r2
+									done = true
+								}
+								if !keep {
+									os.Remove(f2)
+								}
+							}
+						}
+					}
+				}
 				for round := 0; round < 3 && !done && qf != nil; round++ {
 					suffix := ".inst"
 					if round >= 1 {
@@ -258,4 +288,39 @@ func writeJSON(path string, v interface{}) error {
 	}
 	os.MkdirAll(filepath.Dir(path), 0o755)
 	return os.WriteFile(path, append(b, '\n'), 0o644)
+}
+
+func sliceRounds() int {
+	if v := os.Getenv("GOVC_SLICE"); v != "" {
+		n := 0
+		fmt.Sscanf(v, "%d", &n)
+		return n
+	}
+	return 3
+}
+
+// hasHardArith: division / remainder / multiplication by something other than a constant power of two.
+func hasHardArith(t *Term) bool {
+	if t == nil {
+		return false
+	}
+	seen := map[*Term]bool{}
+	var rec func(t *Term) bool
+	rec = func(t *Term) bool {
+		if seen[t] {
+			return false
+		}
+		seen[t] = true
+		switch t.Op {
+		case "bvsdiv", "bvudiv", "bvsrem", "bvurem", "bvmul":
+			return true
+		}
+		for _, a := range t.Args {
+			if rec(a) {
+				return true
+			}
+		}
+		return false
+	}
+	return rec(t)
 }
